@@ -106,8 +106,23 @@ func (r *faultReader) Read(p []byte) (int, error) {
 
 func (r *faultReader) Close() error { return nil }
 
+// c14ExportURL: the export endpoint is reached through a URL that carries parameters of its own (routing, a
+// token), which the serving side insists on; the importer has to keep them.
+const c14ExportURL = "http://exporter.invalid/export?action=cache+export&token=a%2Bb%26c"
+
 func (t *inproc) RoundTrip(req *http.Request) (*http.Response, error) {
 	q := req.URL.Query()
+
+	if q.Get("action") != "cache export" || q.Get("token") != "a+b&c" {
+		// the front door: not the export handler's business
+		rec := httptest.NewRecorder()
+		http.Error(rec, "forbidden: the parameters of the export URL did not arrive", http.StatusForbidden)
+
+		resp := rec.Result()
+		t.statuses = append(t.statuses, resp.StatusCode)
+
+		return resp, nil
+	}
 
 	switch t.perturb {
 	case "hash-altered":
@@ -284,7 +299,7 @@ func c14Transfer(cc c14Cell, env *Env) CellResult {
 
 			func() {
 				defer func() { panicked = recover() }()
-				err = imp.Import(context.Background(), "http://exporter.invalid/export")
+				err = imp.Import(context.Background(), c14ExportURL)
 			}()
 
 			res.Execs++
@@ -439,7 +454,7 @@ func c14Faults(cc c14Cell, env *Env) CellResult {
 
 				func() {
 					defer func() { panicked = recover() }()
-					err = imp.Import(context.Background(), "http://exporter.invalid/export")
+					err = imp.Import(context.Background(), c14ExportURL)
 				}()
 
 				if length < 0 {
@@ -570,7 +585,7 @@ func init() {
 		tr := &inproc{h: exp.Export(), perturb: "none", cutAt: -1, failAt: -1}
 		imp.Transport = tr
 
-		if err := imp.Import(ctx, "http://exporter.invalid/export"); err != nil {
+		if err := imp.Import(ctx, c14ExportURL); err != nil {
 			fmt.Println("FAIL Import returned", err)
 			return
 		}
@@ -609,7 +624,7 @@ func init() {
 
 			tr.statuses = nil
 
-			if err := imp.Import(ctx, "http://exporter.invalid/export"); err != nil {
+			if err := imp.Import(ctx, c14ExportURL); err != nil {
 				fmt.Println("FAIL Import returned", err)
 				return
 			}
@@ -830,7 +845,7 @@ func init() {
 		ID: "C14", Title: "HTTP transfer imports exactly what was exported and refuses mismatched types",
 		Cells: c14Cells, Run: c14Run,
 		Rule: "(transfer) all 27 assignments of three cache names (two of them need URL escaping) to exporter-only / importer-only / both, in every third case plus a cache under the empty name on both sides, x every entry set of <=2 entries over the C13 alphabet x backend pairing x request perturbation " +
-			"{none, types hash altered, types hash missing, name altered, name missing}, through an in-process RoundTripper that calls the Export handler (no sockets); " +
+			"{none, types hash altered, types hash missing, name altered, name missing}, through an in-process RoundTripper that calls the Export handler (no sockets) and insists on the query parameters the export URL itself carries; " +
 			"(faults) the response body cut, and separately the body read failing, at EVERY byte offset, with the loggers of both sides rotating through {none, Error-only, all levels}; (hash) every registration sequence of length <=4 with repetitions over a pool of 4 types (struct, nested struct, map, and a struct registered through a pointer) (340) x every way of splitting it into variadic GobRegister calls, each in a fresh process",
 		Assumptions: []string{
 			"net/http is used through Handler.ServeHTTP and a custom RoundTripper only; no scheduler is active",
